@@ -321,8 +321,13 @@ def gen_contention(rng):
         devs.append({'k': 'S', 'n': f'S{i}', 'c': rng.choice([0.25, 0.5, 1]), 'budget': rng.choice([INF, 6, 15]),
                      'batch': None, 'val': 1})
     srcs = [f'S{i}' for i in range(ns)]
-    front = rng.choice(['buf', 'direct', 'hand'])
-    if front == 'buf':
+    front = rng.choice(['buf', 'direct', 'hand', 'gate'])
+    if front == 'gate':
+        # an always-accepting gate fans out to the processors: the pass-through device offers the part
+        devs.append({'k': 'B', 'n': 'B0', 'c': 0, 'cap': rng.choice([2, 4]), 'up': srcs})
+        devs.append({'k': 'G', 'n': 'Gf', 'q': 0, 'neg': False, 'up': ['B0']})
+        up = ['Gf']
+    elif front == 'buf':
         devs.append({'k': 'B', 'n': 'B0', 'c': 0, 'cap': rng.choice([1, 2, 4]), 'up': srcs})
         up = ['B0']
     elif front == 'hand':
@@ -355,7 +360,7 @@ def gen_contention(rng):
         elif r < 0.6:
             spec['actions'].append([t, pr, 'fail', rng.choice(ps), 0])
         elif r < 0.68:
-            spec['actions'].append([t, pr, 'wo', rng.choice(ps)])
+            spec['actions'].append([t, pr, 'wo', rng.choice(ps)] + ([rng.choice(['x', 'y'])] if rng.random() < 0.4 else []))
         elif r < 0.78:
             spec['actions'].append([t, pr, 'maint', rng.choice(ps), rng.choice([0.5, 1, 2.75])])
         elif r < 0.85:
@@ -464,7 +469,7 @@ def gen_interrupt(rng):
         elif P and r < 0.5:
             acts.append([t, pr, rng.choice(['shutdown', 'restore', 'restore']), P])
         elif P and r < 0.7:
-            acts.append([t, pr, 'wo', P])
+            acts.append([t, pr, 'wo', P] + ([rng.choice(['x', 'y'])] if rng.random() < 0.5 else []))
         elif r < 0.9:
             acts.append([t, pr, 'offset', rng.choice(procs + handlers + ['K0']), rng.choice([-5, -0.5, 0.25, 1, 2])])
         elif spec['res']:
@@ -598,7 +603,14 @@ def gen_values(rng):
         else:
             acts.append([t, pr, 'restore', rng.choice(procs)])
     spec['actions'] = acts
-    return finish(rng, spec, 'values')
+    spec = finish(rng, spec, 'values')
+    if rng.random() < 0.35:
+        T = sum(spec['T'])
+        a = rng.choice([1, 2.5, 4])
+        if a < T:
+            spec['T'] = [a, T - a]
+            spec['between'] = [[0, 'newsink', list(prev), 'KX']] + [b for b in spec.get('between', []) if b[0] == 0]
+    return spec
 
 
 def gen_rework(rng):
@@ -804,6 +816,9 @@ def well_posed(spec):
                 return False
             if b[1] == 'addres':
                 if b[2] not in spec['res']:
+                    return False
+            elif b[1] == 'newsink':
+                if not b[2] or any(u not in names for u in b[2]):
                     return False
             elif b[2] not in names or (b[1] == 'rewire_add' and b[3] not in names):
                 return False
